@@ -277,6 +277,9 @@ impl Operator for GroupedQueryAttentionMatMul {
 
         let chunk_size = self.repeats * seq * rhs_n;
         let out_size = batch * (heads / self.repeats) * chunk_size;
+        if out_size == 0 {
+            return Tensor::<f32>::zeros(&[batch, heads, seq, rhs_n]).into_op_result();
+        }
         let mut out_data = ctx.pool().alloc(out_size);
         let out_uninit = &mut out_data.spare_capacity_mut()[..out_size];
 
